@@ -73,6 +73,7 @@ fn run(out: &mut Out, sched: &Value) {
     let budgeted = sched.get("budgeted").and_then(|x| x.as_bool()).unwrap_or(false);
     let rc = sched.get("rc").and_then(|x| x.as_u64()).unwrap_or(0) as usize;
     let wc = sched.get("wc").and_then(|x| x.as_u64()).unwrap_or(0) as usize;
+    let flaky = sched.get("flaky").and_then(|x| x.as_bool()).unwrap_or(false);
     out.reset_with(json!({"max": max, "buf": BUF, "dur": dur_ms}), sched);
 
     let (_a, src, ctl_a) = pipe(false);
@@ -80,7 +81,12 @@ fn run(out: &mut Out, sched: &Value) {
     let mut r = Run { ctl_a, ctl_b, written: [0; 2], fwd: [0; 2], eofout: [false; 2], faulted: false };
     for d in 0..2 {
         let (c, dir) = r.input(d);
-        c.with(dir, |x| x.read_chunk = rc);
+        c.with(dir, |x| {
+            x.read_chunk = rc;
+            // spurious Pending + immediate wake on every second read; only for hand-written schedules:
+            // two flaky directions can alternate their wake-ups forever, which defeats stall detection
+            x.flaky_read = flaky;
+        });
         let (c, dir) = r.output(d);
         c.with(dir, |x| {
             x.auto = true;
@@ -99,7 +105,22 @@ fn run(out: &mut Out, sched: &Value) {
         if *finished {
             return;
         }
-        let res = vcommon::guard(|| det.run_until_stalled(fut.as_mut(), 100_000));
+        // poll until Ready or truly stalled (Pending without a wake-up during the poll)
+        let res = vcommon::guard(|| {
+            for _ in 0..50_000_000u64 {
+                let before = det.wakes();
+                match det.poll(fut.as_mut()) {
+                    std::task::Poll::Ready(v) => return Some(v),
+                    std::task::Poll::Pending => {
+                        if det.wakes() == before {
+                            return None;
+                        }
+                    }
+                }
+            }
+            eprintln!("driver: poll budget exhausted (livelock?)");
+            std::process::exit(3)
+        });
         match res {
             Err(m) => {
                 out.ev(json!({"e": "panic", "msg": m}));
